@@ -21,14 +21,33 @@ def build_model(labels, K, m, spreads, nw=1):
     data = np.zeros((len(labels), nw))
     ms = model_state.ModelState.empty_model(args, data)
     for k in range(K):
-        c = np.zeros((nw, nw))
-        c[0, 0] = float(spreads[k])
-        ms.clusters[k].computed_covariance = c
+        ms.clusters[k].computed_covariance = spread_matrix(spreads[k], nw)
         ms.clusters[k].train_inverse = np.eye(nw)
         ms.clusters[k].stacked_data_mean = np.zeros(nw)
         ms.clusters[k].empirical_covariance = np.eye(nw)
     ms.point_labels = list(labels)
     return ms
+
+
+def spread_matrix(spec, nw=1):
+    """spec: a number (1x1-style matrix whose only non-zero entry is that number) or a nested list (the matrix itself)."""
+    if isinstance(spec, (list, tuple, np.ndarray)):
+        return np.array(spec, dtype=np.float64)
+    c = np.zeros((nw, nw))
+    c[0, 0] = float(spec)
+    return c
+
+
+def frobenius(spec):
+    """The spread the property names (norm of the fitted covariance), computed here without numpy.linalg.  For the catalogue used
+    by the generators (entries are small multiples of 1/2, or a single entry) the value is exact, so ties are real ties."""
+    m = spread_matrix(spec)
+    flat = [float(v) for v in m.ravel()]
+    nz = [v for v in flat if v != 0.0]
+    if len(nz) <= 1:
+        return abs(nz[0]) if nz else 0.0
+    import math
+    return math.sqrt(math.fsum(v * v for v in nz))
 
 
 def snapshot(ms):
@@ -166,15 +185,16 @@ def check_repopulation(labels, K, m, spreads, seed, t=None, repopulate=None, mod
     usage = [lost[k] // m for k in range(K)]
     donors = [k for k in range(K) if cap[k] > 0]
     remaining = len(needy)
-    for s in sorted({spreads[k] for k in donors}, reverse=True):
-        group = [k for k in donors if spreads[k] == s]
+    fro = [frobenius(spreads[k]) for k in range(K)]
+    for s in sorted({fro[k] for k in donors}, reverse=True):
+        group = [k for k in donors if fro[k] == s]
         if len(group) > 1:
             obs["ties"] = True
         gcap = sum(cap[k] for k in group)
         take = min(gcap, remaining)
         if sum(usage[k] for k in group) != take:
             raise Violation(f"donors are not used in order of decreasing spread: spread group {group} gave "
-                            f"{sum(usage[k] for k in group)} refills, expected {take} (sizes={sizes}, m={m}, spreads={list(spreads)}, usage={usage})")
+                            f"{sum(usage[k] for k in group)} refills, expected {take} (sizes={sizes}, m={m}, spreads (Frobenius)={fro}, usage={usage})")
         partial = [k for k in group if 0 < usage[k] < cap[k]]
         if any(usage[k] > cap[k] for k in group):
             raise Violation(f"donor gave more refills than it can afford (usage={usage}, capacities={cap})")
